@@ -114,4 +114,33 @@ def removeHandlersLegacy (st : Registry) (name : Nat) : Registry :=
 /-- `ServerState::get_handler`. -/
 def getHandler (st : Registry) (key : Nat) : Option Nat := lookup st.handlers key
 
+/-! ### Request paths (`lib.rs: to_uri_path`, `sanitise`) -/
+
+/-- The bytes `sanitise` copies: ASCII letters, digits, `-` `.` `_` `~` and `:`. -/
+def unreserved (b : Nat) : Bool :=
+  (65 ≤ b && b ≤ 90) || (97 ≤ b && b ≤ 122) || (48 ≤ b && b ≤ 57) ||
+  b == 45 || b == 46 || b == 95 || b == 126 || b == 58
+
+/-- `{:02X}`: one upper-case hexadecimal digit. -/
+def hexDigit (n : Nat) : Nat := if n < 10 then 48 + n else 55 + n
+
+/-- One byte of a name: copied, or `%XX`. -/
+def encByte (b : Nat) : List Nat :=
+  if unreserved b then [b] else [37, hexDigit (b / 16), hexDigit (b % 16)]
+
+/-- `sanitise` (current tree): percent-encode everything but the unreserved bytes. -/
+def sanitise (name : List Nat) : List Nat := name.flatMap encByte
+
+/-- `to_uri_path`: `format!("/{}/{}", sanitise(service), sanitise(path))`. -/
+def toUri (service path : List Nat) : List Nat := 47 :: (sanitise service ++ 47 :: sanitise path)
+
+/-- The tree before the `fix:` commit for D15: `<` and `>` become `-`, nothing else is touched. -/
+def sanitiseLegacy (name : List Nat) : List Nat := name.map (fun b => if b == 60 || b == 62 then 45 else b)
+
+def toUriLegacy (service path : List Nat) : List Nat := 47 :: (sanitiseLegacy service ++ 47 :: sanitiseLegacy path)
+
+/-- What `http::Uri` accepts in a path (RFC 3986 `pchar` and `/`): the bytes that matter here. -/
+def uriPathByte (b : Nat) : Bool :=
+  unreserved b || b == 37 || b == 47 || b == 33 || b == 36 || (38 ≤ b && b ≤ 44) || b == 59 || b == 61 || b == 64
+
 end Datacake.Rpc
